@@ -11,6 +11,7 @@
 From Coq Require Import ZArith List Bool String.
 Import ListNotations.
 Require Import Grist.Lib.PyFloat Grist.Model.Values Grist.Proofs.Values_enc_proofs Grist.Proofs.Values_depth_proofs.
+Require Import GristGen.Actions_gen.
 Open Scope Z_scope.
 
 Definition C24_full : Prop := forall orc fuel v,
@@ -40,6 +41,22 @@ Proof. intros orc [|n]; split; reflexivity. Qed.
 Theorem C24_action_repr_marshalable : forall orc fuel a,
   action_ok a = true -> marshalableb (action_repr orc fuel a) = true.
 Proof. exact action_repr_marshalable. Qed.
+
+(* The action classes whose cell values actions.convert_action_values passes through the converter, read off the
+   current actions.py (gen/Actions_gen.v, regenerated on every run), are the model's: dropping a class from the
+   dispatch (its values would then leave unencoded) or adding one breaks this obligation.  The rest of the path
+   of a reply (convert_recursive_*, encode_objects, get_action_repr, to_json_obj) is pinned by AST equality. *)
+Theorem C24_code_action_kinds : gen_single_kinds = single_kinds /\ gen_bulk_kinds = bulk_kinds.
+Proof. split; reflexivity. Qed.
+
+(* ... and every action of such a class is modelled by the constructor that encodes its values *)
+Theorem C24_action_of_kinds : forall name t r rest c1 cn,
+  (In name gen_single_kinds -> action_of name (t :: r :: rest) c1 cn = ARecord name t r c1) /\
+  (In name gen_bulk_kinds -> action_of name (t :: r :: rest) c1 cn = ABulk name t r cn).
+Proof.
+  intros name t r rest c1 cn. split; intros H; cbn in H;
+    repeat (destruct H as [<-|H]; [reflexivity|]); contradiction.
+Qed.
 
 (* ActionBundle.to_json_obj, the body of every apply_user_actions reply *)
 Theorem C24_reply_marshalable : forall orc fuel b,
